@@ -8,6 +8,7 @@ from vlib.ref import bip39 as R
 from vlib.util import call, expect_eq
 
 PROPERTY_ID = "C04"
+OPTIMIZED = ['reject-size', 'hex-forms', 'generator-reject', 'encode']   # clauses run a second time under `python -O` (assert statements stripped)
 RULE = ("entropy of the five sizes from patterned and uniform generators, through mnemonic_from_entropy "
         "(lower/upper-case hex) and BaseWallet.from_entropy_hex; all other byte lengths 0..64 exhaustively; "
         "hex text with whitespace / odd digit counts; oracle = word-by-word decoding through a frozen copy of "
